@@ -24,6 +24,7 @@ func c11(c *eng.Ctx, r *eng.Report) {
 		"R11.6 panics reachable from the interpreter are the reviewed ones; R11.7 overflow flags are consumed; R11.8 Run validates the stack, charges constant and dynamic gas and resizes memory before operation.execute. " +
 		"R11.9 a write attempt in read-only context surfaces as ErrWriteProtection: Run refuses rows flagged `writes` under the interpreter-wide in.readOnly flag (not the frame argument) before operation.execute, and the flag is sticky across nested frames (shared with C12). " +
 		"R11.10 callGas/authCallGas return min(request, a - a/64) with a = available - base, and the four call-family gas functions call callGas(true, contract.Gas, …). " +
+		"R11.11 a precompile runs only after the caller paid for it, and the price compared with the supplied gas is RequiredGas(input) itself — no unchecked arithmetic between pricing and the affordability test (the precompiles size their allocations from the input on the strength of that price: MODEXP allocates what the header announces); " +
 		"Not decided: termination as such, exact gas values."
 	r.Assume = []string{"memory is grown only by Run (mem.Resize) to the size computed by the row's memorySize function", "no recover() exists in vm/executor/core, so a reachable panic crashes the host"}
 	rows := analyseRows(c, r, "R11.1")
@@ -37,6 +38,7 @@ func c11(c *eng.Ctx, r *eng.Report) {
 	c11Overflow(c, r)
 	c11RunOrder(c, r)
 	c11SixtyThreeSixtyFourths(c, r)
+	c11PrecompileGas(c, r)
 	// R11.9 write attempts in read-only context surface as a failed call: the interpreter refuses
 	// write rows under the *sticky* in.readOnly flag before executing them (shared with C12 R12.2/R12.3)
 	if run := c.Func("vm", "(*EVMInterpreter).Run"); r.Anchor(run != nil, "R11.9", "vm.(*EVMInterpreter).Run") {
@@ -449,7 +451,7 @@ func c11Precompiles(c *eng.Ctx, r *eng.Report) {
 			for _, in := range b.Instrs {
 				if call, isC := in.(*ssa.Call); isC && call.Call.IsInvoke() && call.Call.Method.Name() == "Run" {
 					for _, cd := range eng.CondsAt(call) {
-						if m, isM := cd.Cmp(); isM && m.Op == token.GEQ && eng.Desc(m.X) == "suppliedGas" {
+						if m, isM := cd.Cmp(); isM && (m.Op == token.GEQ && eng.Desc(m.X) == "suppliedGas" || m.Op == token.LEQ && eng.Desc(m.Y) == "suppliedGas") {
 							ok = true
 						}
 					}
@@ -1001,4 +1003,98 @@ func c11BitmapCapacity(c *eng.Ctx, r *eng.Report) {
 func constIs(v ssa.Value, k int64) bool {
 	c, ok := eng.ConstInt(v)
 	return ok && c == k
+}
+
+// c11PrecompileGas: RequiredGas grows with what Run will allocate; a product of
+// it that wraps lets a header announcing an exabyte exponent through the
+// affordability test, and Run dies in makeslice.
+func c11PrecompileGas(c *eng.Ctx, r *eng.Report) {
+	const rule = "R11.11"
+	r.Min(rule, 1)
+	fn := c.Func("vm", "RunPrecompiledContract")
+	if !r.Anchor(fn != nil, rule, "vm.RunPrecompiledContract") {
+		return
+	}
+	var price, run *ssa.Call
+	for _, s := range eng.Sites(fn) {
+		call, ok := s.Instr.(*ssa.Call)
+		if !ok || !call.Call.IsInvoke() {
+			continue
+		}
+		switch call.Call.Method.Name() {
+		case "RequiredGas":
+			price = call
+		case "Run":
+			run = call
+		}
+	}
+	if price == nil || run == nil {
+		r.Fail(rule, "precompile:price-then-run", c.Pos(fn.Pos()), "RunPrecompiledContract no longer calls RequiredGas and Run on the contract: the pricing has moved and must be re-reviewed")
+		return
+	}
+	var supplied *ssa.Parameter
+	for _, p := range fn.Params {
+		if p.Name() == "suppliedGas" {
+			supplied = p
+		}
+	}
+	// checked arithmetic: value #0 of SafeMul/SafeAdd whose overflow flag feeds a branch
+	checked := func(v ssa.Value) bool {
+		ex, ok := v.(*ssa.Extract)
+		if !ok || ex.Index != 0 {
+			return false
+		}
+		call, ok := ex.Tuple.(*ssa.Call)
+		if !ok || !(strings.HasSuffix(eng.CallName(&call.Call), ".SafeMul") || strings.HasSuffix(eng.CallName(&call.Call), ".SafeAdd")) {
+			return false
+		}
+		for _, ref := range *call.Referrers() {
+			if e2, isE := ref.(*ssa.Extract); isE && e2.Index == 1 {
+				for _, b := range fn.Blocks {
+					if iff, isIf := b.Instrs[len(b.Instrs)-1].(*ssa.If); isIf && valueDerivesFromValue(iff.Cond, e2) {
+						return true
+					}
+				}
+			}
+		}
+		return false
+	}
+	var exact func(v ssa.Value, d int) bool
+	exact = func(v ssa.Value, d int) bool {
+		if v == ssa.Value(price) || checked(v) {
+			return true
+		}
+		if phi, ok := v.(*ssa.Phi); ok && d < 4 {
+			for _, e := range phi.Edges {
+				if !exact(e, d+1) {
+					return false
+				}
+			}
+			return len(phi.Edges) > 0
+		}
+		return false
+	}
+	ok, why := false, "no comparison of the supplied gas with the price dominates Run"
+	for _, cd := range eng.CondsAt(run) {
+		m, isM := cd.Cmp()
+		if !isM || supplied == nil {
+			continue
+		}
+		// suppliedGas >= cost  (the false edge of suppliedGas < cost)
+		var cost ssa.Value
+		switch {
+		case m.X == ssa.Value(supplied) && (m.Op == token.GEQ):
+			cost = m.Y
+		case m.Y == ssa.Value(supplied) && (m.Op == token.LEQ):
+			cost = m.X
+		default:
+			continue
+		}
+		if exact(cost, 0) {
+			ok = true
+		} else {
+			why = "the supplied gas is compared with " + eng.Desc(cost) + ", not with RequiredGas(input) itself"
+		}
+	}
+	r.Check(ok, rule, "precompile:price-then-run", c.Pos(run.Pos()), "Run is reached only on suppliedGas >= RequiredGas(input), the price taken as returned", "RunPrecompiledContract: "+why+" — unchecked uint64 arithmetic on the price can wrap (MODEXP's price is chosen by the input: a header with a 1.5e18-byte exponent prices near 2^64/30), the affordability test passes and Run allocates what the header announces: the host panics in makeslice instead of returning ErrOutOfGas")
 }
